@@ -493,6 +493,14 @@ impl MdkSqliteStorage {
         crate::verif_hooks::tick("snapshot:in-tx");
 
         let result = (|| -> Result<(), Error> {
+            // Taking a snapshot under a name that already exists for this group replaces it
+            // (as the memory backend does) instead of failing on the primary key.
+            conn.execute(
+                "DELETE FROM group_state_snapshots WHERE snapshot_name = ? AND group_id = ?",
+                rusqlite::params![name, group_id_bytes],
+            )
+            .map_err(|e| Error::Database(e.to_string()))?;
+
             // Helper to insert snapshot rows
             let mut insert_stmt = conn
                 .prepare_cached(
